@@ -641,6 +641,90 @@ def run(ctx, B, collect=False):
         layout(pm, m_.group(1), mem, ptxt.count("\n", 0, m_.start()) + 1)
     notes["functions_compared"]["struct layouts (Fortran BIND(C) types, Pascal records)"] = nlay
 
+    # ================================================================= IDL: the C glue of the DLM (idl/xraylib_idl.c)
+    # The .pro files carry the constants; the FUNCTIONS reach IDL through this file: a table (routine, IDL name, min/max argument count), macro-generated
+    # wrappers XRL_<n><letters>(name) whose letters say how each IDL argument is converted (I: IDL_LongScalar, F: IDL_DoubleScalar, S: IDL_VarGetString),
+    # and hand-written wrappers.  Every conversion must fit the C parameter it ends up in, in the order of the C prototype.
+    ig = "idl/xraylib_idl.c"
+    if os.path.exists(P(ig)):
+        gt = open(P(ig), errors="replace").read()
+        gt = re.sub(r"/\*.*?\*/", lambda m_: re.sub(r"[^\n]", " ", m_.group(0)), gt, flags=re.S)
+        gl = lambda pos: gt.count("\n", 0, pos) + 1
+        LET = {"I": "int", "F": "double", "S": "str"}
+        CONV = {"IDL_LongScalar": "int", "IDL_ULongScalar": "int", "IDL_DoubleScalar": "double", "IDL_VarGetString": "str"}
+        nig = 0
+        # 1. macro definitions: conversions of argv[k] follow the letters, the call passes the converted variables in order
+        macros = {}
+        for m_ in re.finditer(r"#define\s+XRL_(\d+)([IFS]+)\(name\)((?:.*\\\n)*.*\n)", gt):
+            n_, letters, body = int(m_.group(1)), m_.group(2), m_.group(3)
+            macros["XRL_%d%s" % (n_, letters)] = letters
+            conv = {int(k): (v, f) for v, f, k in re.findall(r"(\w+)\s*=\s*(?:\(\w+\s*\*?\)\s*)?(IDL_\w+Scalar|IDL_VarGetString)\s*\(\s*argv\[(\d+)\]\s*\)", body)}
+            call = re.search(r"=\s*name\s*\(([^)]*)\)", body)
+            passed = [x.strip() for x in call.group(1).split(",")] if call else []
+            ok_ = n_ == len(letters) and sorted(conv) == list(range(n_)) and all(CONV.get(conv[k][1]) == LET[letters[k]] for k in range(n_)) and \
+                passed == [conv[k][0] for k in range(n_)] + ["NULL"]
+            nig += 1
+            R.cmp(ig, "idl-glue-macro", "XRL_%d%s" % (n_, letters), ok_, "conversions %s, call name(%s)" % ([(k, conv[k][1]) for k in sorted(conv)], ", ".join(passed)),
+                  "argument k converted as letter k says (%s), passed in order, then NULL" % letters, "%s:%d" % (ig, gl(m_.start())), "idl glue")
+        # 2. instantiations: the letters are the C prototype's parameter kinds
+        inst = {}
+        for m_ in re.finditer(r"(?m)^(XRL_\d+[IFS]+)\((\w+)\)", gt):
+            mac_, fn_ = m_.group(1), m_.group(2)
+            inst[fn_] = mac_
+            p_ = allproto.get(fn_)
+            where = "%s:%d" % (ig, gl(m_.start()))
+            nig += 1
+            if not R.cmp(ig, "function-undeclared", fn_, p_ is not None and mac_ in macros, "%s(%s)" % (mac_, fn_), "a C prototype and a defined macro", where, "idl glue"):
+                continue
+            cret, cargs = ref.csig(p_)
+            cargs = cargs[:-1] if cargs and cargs[-1][0] == "err**" else cargs
+            want = "".join({"int": "I", "double": "F", "str": "S"}.get(t_, "?") for t_, n__ in cargs)
+            R.cmp(ig, "function-argtype", fn_, macros[mac_] == want and cret == "double", "%s: argument kinds %s, result double" % (mac_, macros[mac_]), "%s -> %s" % (want, cret), where)
+        # 3. hand-written wrappers: every scalar conversion that is passed on to the C function of the wrapper's name fits that parameter
+        hand = {}
+        for m_ in re.finditer(r"(?m)^(?:IDL_VPTR|void)\s+IDL_CDECL\s+IDL_(\w+)\s*\(\s*int\s+argc\s*,\s*IDL_VPTR\s+argv\[\]\s*\)\s*\{", gt):
+            fn_ = m_.group(1)
+            depth, j_ = 0, m_.end() - 1
+            for j_ in range(m_.end() - 1, len(gt)):
+                depth += (gt[j_] == "{") - (gt[j_] == "}")
+                if depth == 0:
+                    break
+            body = gt[m_.end():j_]
+            cfn = fn_[:-4] if fn_.endswith("_xrl") else fn_
+            hand[fn_] = cfn
+            p_ = allproto.get(cfn)
+            if p_ is None:
+                continue
+            conv = {v: (CONV[f], int(k), dt) for dt, v, f, k in re.findall(r"(?:(int|double|char\s*\*|long)\s+)?(\w+)\s*=\s*(?:\(\w+\s*\*?\)\s*)?(IDL_\w+Scalar|IDL_VarGetString)\s*\(\s*argv\[(\d+)\]\s*\)", body)}
+            call = re.search(r"\b%s\s*\(([^;]*)\)\s*;" % re.escape(cfn), body)
+            if not call:
+                continue
+            passed = [x.strip() for x in call.group(1).split(",")]
+            cret, cargs = ref.csig(p_)
+            bad = []
+            for pos, a_ in enumerate(passed):
+                a0 = re.sub(r"^\(\w+\)\s*", "", a_)
+                if a0 in conv and pos < len(cargs):
+                    kind_, k_, dt_ = conv[a0]
+                    if kind_ != cargs[pos][0] or (dt_ and {"int": "int", "long": "int", "double": "double"}.get(dt_.replace(" ", ""), "str") != kind_):
+                        bad.append("%s: argv[%d] through %s into parameter #%d (%s %s)" % (a0, k_, [f for f, v in CONV.items() if v == kind_][0], pos + 1, cargs[pos][0], cargs[pos][1]))
+            nig += 1
+            R.cmp(ig, "function-argtype", cfn, not bad, "hand-written wrapper IDL_%s: %s" % (fn_, bad or "conversions fit"), sigstr(cret, cargs), "%s:%d" % (ig, gl(m_.start())), "idl glue")
+        # 4. the routine table: IDL name = upper-case C name, argument count = number of IDL-visible parameters
+        for m_ in re.finditer(r"\{\{\s*(?:\(\w+\)\s*)?IDL_(\w+)\s*\}\s*,\s*\"(\w+)\"\s*,\s*(\d+)\s*,\s*(\d+)\s*,", gt):
+            fn_, iname, amin, amax = m_.group(1), m_.group(2), int(m_.group(3)), int(m_.group(4))
+            cfn = fn_[:-4] if fn_.endswith("_xrl") else fn_
+            where = "%s:%d" % (ig, gl(m_.start()))
+            nig += 1
+            R.cmp(ig, "function-name", cfn, iname == cfn.upper() and (fn_ in inst or fn_ in hand), "routine IDL_%s registered as %s" % (fn_, iname), "%s, with a wrapper defined in the file" % cfn.upper(), where, "idl glue")
+            p_ = allproto.get(cfn)
+            if p_ is not None:
+                cret, cargs = ref.csig(p_)
+                nvis = len([1 for t_, n__ in cargs if t_ not in ("err**",) and n__ not in ("c_array", "nCrystals", "nCompounds", "nRadioNuclides")])
+                if is_scalar_sig(ref, p_) or fn_ in hand:
+                    R.cmp(ig, "function-arity", cfn, amin == amax == nvis, "registered with %d..%d arguments" % (amin, amax), "%d IDL-visible parameters: %s" % (nvis, sigstr(cret, cargs)), where)
+        notes["functions_compared"]["idl glue (macros, instantiations, hand-written wrappers, routine table)"] = nig
+
     # ================================================================= C++
     cp = "cplusplus/xraylib++.h"
     C = L.cplusplus(P(cp), cp)
